@@ -28,8 +28,8 @@ def C14_startEv (d : Nat) : WCont → Ev
     depth-first flattening of the event tree), and cif_walk returns CIF_OK. -/
 theorem C14_all_continue (c : WCif) (hc : noEmptyLoops c = true) :
     walk allCont c = (fullTraversal c, OK) := by
-  rw [walk_eq_spec allCont c hc]
-  simp only [walkSpec, fullTraversal, run_allCont, finalCode]
+  rw [walk_eq_spec allCont c]
+  simp only [walkSpec, fullTraversal, run_allCont _ _ (noFail_cif c hc), finalCode]
   simp [W.init]
 
 /-- the number of callbacks of an undisturbed walk is the number of events of the tree: nothing is delivered twice -/
@@ -37,11 +37,61 @@ theorem C14_all_continue_count (c : WCif) (hc : noEmptyLoops c = true) :
     (walk allCont c).1.length = (fullTraversal c).length := by
   rw [C14_all_continue c hc]
 
-/-- **Refinement**: the callbacks delivered and the result are exactly those of the declarative pruning semantics —
-    the full traversal minus what the answers suppress. -/
-theorem C14_refines_spec (p : Prog) (c : WCif) (hc : noEmptyLoops c = true) :
+/-- **Refinement**, for EVERY CIF and EVERY program: the callbacks delivered and the result are exactly those of the
+    declarative pruning semantics over the event tree — the full traversal minus what the answers suppress.  (A loop
+    without packets is a failure point of the tree: entering it ends the walk with CIF_EMPTY_LOOP.) -/
+theorem C14_refines_spec (p : Prog) (c : WCif) :
     walk p c = walkSpec p c :=
-  walk_eq_spec p c hc
+  walk_eq_spec p c
+
+/-- **What is visited is a sublist of the full traversal**, for every CIF and every program: the callbacks delivered are
+    callbacks of `fullTraversal c`, in the same order, none twice — a walk with directives only ever LEAVES OUT callbacks.
+    Which ones is said exactly by `walkSpec` (`C14_refines_spec`) and, per directive, by `C14_skip_current_tree`,
+    `C14_skip_siblings_tree`, `C14_parent_end_after_skip_siblings`:
+
+    removed by SKIP_CURRENT at the start callback of element `t` : the callbacks of the descendants of `t` AND the end
+      callback of `t` itself (cif.h: "bypass the current element, or at least any untraversed children");
+    removed by SKIP_SIBLINGS at the start callback of `t` (or at an item): the same, the callbacks of the not-yet-visited
+      siblings of `t` of the same group (the loops of a container are not siblings of its frames) AND the END callback of the
+      PARENT of `t` — packet_end after an item, loop_end after a packet_start, block_end / frame_end after a loop_start,
+      cif_end after a block_start; the one exception: after a frame_start the parent's loops are still walked and its
+      end callback is delivered;
+    at an END callback SKIP_CURRENT is CONTINUE, SKIP_SIBLINGS removes the not-yet-visited siblings and the parent's end
+      callback as above;
+    END / an error code: everything that follows.
+    The property text speaks of "exactly the callbacks for the descendants" / "additionally the not-yet-visited siblings":
+    the end callbacks named above are removed IN ADDITION (the documented reading, DESIGN.md C14). -/
+theorem C14_visits_sublist (p : Prog) (c : WCif) : (walk p c).1.Sublist (fullTraversal c) := by
+  rw [walk_eq_spec p c]
+  exact spec_sublist p c
+
+/-- SKIP_CURRENT in traversal terms: where the full traversal has `flatten t = s :: … ++ [e]`, the walk delivers `[s]` and
+    goes on with what follows `t` -/
+theorem C14_skip_current_tree (p : Prog) (w : W) (s e : Ev) (g1 g2 : List ETree) (h : p w.n s = SKIP_CURRENT) :
+    run p (.node s g1 g2 e) w = (.go, C14_push w s) := by
+  have hne : ¬ (SKIP_CURRENT = CONTINUE) := by decide
+  simp [run, h, hne, classify_go (Or.inr rfl), call, C14_push]
+
+/-- SKIP_SIBLINGS in traversal terms: of `flattenList (t :: ts)` the walk delivers `[s]`: nothing of `t` below its start,
+    nothing of the later siblings `ts` -/
+theorem C14_skip_siblings_tree (p : Prog) (w : W) (s e : Ev) (g1 g2 ts : List ETree) (h : p w.n s = SKIP_SIBLINGS) :
+    runList p (.node s g1 g2 e :: ts) w = (.sib, C14_push w s) := by
+  have hne : ¬ (SKIP_SIBLINGS = CONTINUE) := by decide
+  simp [runList, run, h, hne, classify_sib, call, C14_push]
+
+/-- … and the parent: when a child of its LAST group of children asked to skip its siblings, the parent's end callback is
+    not delivered and the parent counts as completed; when the child was a frame (first group of a container), the
+    parent's loops are walked and its end callback is delivered as usual -/
+theorem C14_parent_end_after_skip_siblings (p : Prog) (w w1 : W) (s e : Ev) (g1 g2 : List ETree) (hs : p w.n s = CONTINUE) :
+    (runList p g1 (call p w s).2 = (.go, w1) ∨ runList p g1 (call p w s).2 = (.sib, w1)) →
+    (∀ w2, runList p g2 w1 = (.sib, w2) → run p (.node s g1 g2 e) w = (.go, w2))
+    ∧ (∀ w2, runList p g2 w1 = (.go, w2) → run p (.node s g1 g2 e) w = (classify (p w2.n e), (call p w2 e).2)) := by
+  intro h1
+  constructor
+  · intro w2 h2
+    rcases h1 with h1 | h1 <;> simp [run, hs, h1, h2, finish]
+  · intro w2 h2
+    rcases h1 with h1 | h1 <;> simp [run, hs, h1, h2, finish]
 
 /-- **SKIP_CURRENT** at a start callback, for every element kind, in any state `w` (= after any history) and for any
     program: exactly the start callback is delivered — none for the descendants, none for the end — and the walk goes on
@@ -115,22 +165,22 @@ theorem C14_skip_siblings (p : Prog) (w : W) :
   · intro nm v is h
     simp [walkItems, call, h, hne, hne2, C14_push]
 
-/-- **END**: a callback answering END is the last callback, and cif_walk returns CIF_OK. -/
-theorem C14_end (p : Prog) (c : WCif) (hc : noEmptyLoops c = true)
+/-- **END**: a callback answering END is the last callback, and cif_walk returns CIF_OK — on every CIF. -/
+theorem C14_end (p : Prog) (c : WCif)
     (k : Nat) (h : k < (walk p c).1.length) (hk : p k (walk p c).1[k] = END) :
     k + 1 = (walk p c).1.length ∧ (walk p c).2 = OK := by
   have := (spec_stop p c).1
-  simp only [← walk_eq_spec p c hc] at this
+  simp only [← walk_eq_spec p c] at this
   have h2 := this k h (by rw [hk]; decide)
   simpa [hk] using h2
 
 /-- **Error codes propagate**: a callback answering anything that is not a navigation code —
-    in particular any positive code — is the last callback, and cif_walk returns that code unchanged. -/
-theorem C14_error_propagates (p : Prog) (c : WCif) (hc : noEmptyLoops c = true)
+    in particular any positive code — is the last callback, and cif_walk returns that code unchanged — on every CIF. -/
+theorem C14_error_propagates (p : Prog) (c : WCif)
     (k : Nat) (h : k < (walk p c).1.length) (hk : p k (walk p c).1[k] > 0) :
     k + 1 = (walk p c).1.length ∧ (walk p c).2 = p k (walk p c).1[k] := by
   have := (spec_stop p c).1
-  simp only [← walk_eq_spec p c hc] at this
+  simp only [← walk_eq_spec p c] at this
   have hs : isStop (p k (walk p c).1[k]) := by
     unfold isStop CONTINUE SKIP_CURRENT SKIP_SIBLINGS
     omega
@@ -144,7 +194,7 @@ theorem C14_returns_ok_on_directives (p : Prog) (c : WCif) (hc : noEmptyLoops c 
     (hd : ∀ k e, p k e = CONTINUE ∨ p k e = SKIP_CURRENT ∨ p k e = SKIP_SIBLINGS ∨ p k e = END) :
     (walk p c).2 = OK := by
   have hs := spec_stop p c
-  simp only [← walk_eq_spec p c hc] at hs
+  simp only [← walk_eq_spec p c] at hs
   by_cases hex : ∃ (k : Nat) (h : k < (walk p c).1.length), isStop (p k (walk p c).1[k])
   · obtain ⟨k, h, hst⟩ := hex
     have h2 := (hs.1 k h hst).2
@@ -155,9 +205,42 @@ theorem C14_returns_ok_on_directives (p : Prog) (c : WCif) (hc : noEmptyLoops c 
       · exact absurd (Or.inr (Or.inr h')) hst
       · exact h'
     simpa [hend] using h2
-  · apply hs.2
-    intro k h hst
-    exact hex ⟨k, h, hst⟩
+  · -- no stopping answer: the result is CIF_OK unless the walk ran into a failure point, and there is none
+    rw [walk_eq_spec p c]
+    show finalCode (run p (cifTree c) W.init).1 = OK
+    generalize hx : run p (cifTree c) W.init = x
+    rcases x with ⟨o, w1⟩
+    cases o with
+    | go => rfl
+    | sib => rfl
+    | stop r =>
+      obtain ⟨k, e, hke⟩ := run_fromprog p (cifTree c) _ _ _ (noFail_cif c hc) hx
+      have hstop := run_stop p (cifTree c) _ _ _ hx
+      have hend : r = END := by
+        rcases hd k e with h' | h' | h' | h'
+        · exact absurd (Or.inl (hke ▸ h')) hstop
+        · exact absurd (Or.inr (Or.inl (hke ▸ h'))) hstop
+        · exact absurd (Or.inr (Or.inr (hke ▸ h'))) hstop
+        · exact hke ▸ h'
+      simp [finalCode, hend]
+
+/-- without the restriction: the only other result of a walk whose handlers answer directives only is CIF_EMPTY_LOOP -/
+theorem C14_returns_ok_or_empty_loop (p : Prog) (c : WCif)
+    (hd : ∀ k e, p k e = CONTINUE ∨ p k e = SKIP_CURRENT ∨ p k e = SKIP_SIBLINGS ∨ p k e = END) :
+    (walk p c).2 = OK ∨ (walk p c).2 = EMPTY_LOOP := by
+  have hs := spec_stop p c
+  simp only [← walk_eq_spec p c] at hs
+  by_cases hex : ∃ (k : Nat) (h : k < (walk p c).1.length), isStop (p k (walk p c).1[k])
+  · obtain ⟨k, h, hst⟩ := hex
+    have h2 := (hs.1 k h hst).2
+    have hend : p k (walk p c).1[k] = END := by
+      rcases hd k (walk p c).1[k] with h' | h' | h' | h'
+      · exact absurd (Or.inl h') hst
+      · exact absurd (Or.inr (Or.inl h')) hst
+      · exact absurd (Or.inr (Or.inr h')) hst
+      · exact h'
+    left; simpa [hend] using h2
+  · exact hs.2 (fun k h hst => hex ⟨k, h, hst⟩)
 
 /-- **Packet-less loops** (what the code does; the property makes no claim): when the walk enters a loop without packets
     (loop_start answered CONTINUE) the loop aborts with CIF_EMPTY_LOOP and no further callback for it. -/
